@@ -143,7 +143,7 @@ def _gen_op(g, where, depth=0):
         return {"op": "rm_method", "hid": ch.pick("mhid", g.hids)}
     if kind == "replace":
         return {"op": "replace", "event": ch.pick("xevent", g.events), "hid": ch.pick("xhid", g.hids),
-                "prio": _prio(g), "kw": _kw(ch, "xkw", ["a", "b", "h"], 2, 3),
+                "prio": _prio(g), "kw": {} if ch.flag("xnokw", 0.5) else _kw(ch, "xkw", ["a", "b", "h"], 2, 3),
                 "once": True, "oid": g.next_oid()}
     if kind == "defer":
         return {"op": "defer", "ms": ch.pick("dms", [0, 0, 125, 250]),
@@ -427,9 +427,10 @@ def execute(ctx, plan):
         return post
 
     def unique_kw(ev, hid, kw):
-        """Two registrations of one callable for one event with identical kwargs cannot be told apart by an
-        observer; the later one gets a distinguishing registered kwarg."""
-        if any(r.event == ev and r.hid == hid and r.kw == kw for r in model.regs):
+        """Two registrations of one callable for one event cannot be told apart by an observer when their merged
+        kwargs coincide; every registration but the first of a (callable, event) pair gets a distinguishing
+        registered kwarg 'u' (never used in posted kwargs)."""
+        if any(r.event == ev and r.hid == hid for r in model.regs):
             kw = dict(kw)
             kw["u"] = len(model.regs)
         return kw
@@ -464,8 +465,14 @@ def execute(ctx, plan):
             ev = op["event"]
             before = len([r for r in model.registry.get(ev, []) if r.hid == op["hid"]])
             kw = op["kw"]
-            if any(r.hid == op["hid"] and r.kw == kw and not r.alive for r in model.regs if r.event == ev):
-                return      # would create a registration indistinguishable from a removed one (see unique_kw)
+            # keep registrations distinguishable (see unique_kw): only replace when the new registration ends up as
+            # the only live one of this (callable, event) pair and no waiting post can still see an old one (R3)
+            same = [r for r in model.registry.get(ev, []) if r.hid == op["hid"]]
+            if any(kw and r.kw != kw for r in same):
+                return
+            waiting = list(model._waiting_posts(ev))
+            if waiting and (not model.in_handler() or any(r.hid == op["hid"] for p in waiting for r in p.extra)):
+                return
             reg = model.replace(ev, op["hid"], op["prio"], kw)
             after = len([r for r in model.registry.get(ev, []) if r.hid == op["hid"]])
             if after <= before:
